@@ -324,14 +324,15 @@ func cmdCheck(argv []string) int {
 		return 3
 	}
 	// concurrency: several instances at once, each with a share of the workers
-	par := 4
+	par := *workers / 2
+	if par < 1 {
+		par = 1
+	}
 	if len(jobs) < par {
 		par = len(jobs)
 	}
-	per := *workers / par
-	if per < 1 {
-		per = 1
-	}
+	per := *workers
+	globalSem := make(chan struct{}, *workers)
 	results := make([]*instanceResult, len(jobs))
 	var wg sync.WaitGroup
 	sem := make(chan struct{}, par)
@@ -375,7 +376,7 @@ func cmdCheck(argv []string) int {
 			if *maxWall > 0 {
 				cfg.MaxWall = *maxWall
 			}
-			ex := &interp.Explorer{Cfg: cfg, Prog: prog, Entry: entry, Args: j.args, Replace: replace, KnownIDs: known, InitPkgs: initPolicy}
+			ex := &interp.Explorer{Sem: globalSem, Cfg: cfg, Prog: prog, Entry: entry, Args: j.args, Replace: replace, KnownIDs: known, InitPkgs: initPolicy}
 			ex.Run()
 			results[ji] = &instanceResult{h: j.h, args: j.args, ex: ex}
 			if *verbose {
